@@ -56,6 +56,8 @@ m('c11_revert_f30', 'C11', S, "            if current_task is not None and not c
 m('c03_revert_f31', 'C03', S, "        assert self.name.isidentifier() and not self.name.startswith('_'), (", "        assert self.name.isidentifier(), (", 'revert F31: underscore bus names accepted')
 # ---- C12
 m('c12_revert_f12', 'C12', MO, "                        if isinstance(self.result_type, type) and issubclass(self.result_type, BaseModel):", "                        if issubclass(self.result_type, BaseModel):", 'revert F12')
+m('c12_revert_f32', 'C12', MO, "            if event_result.error is not None or isinstance(event_result.result, BaseException)\n", "            if event_result.error or isinstance(event_result.result, BaseException)\n", 'revert F32 (one site): error results selected by truthiness of the exception object')
+m('c11_falsy_error_not_recorded', 'C11', MO, "        if 'error' in kwargs:\n", "        if kwargs.get('error'):\n", 'a falsy exception object raised by a handler is not recorded (R14 C11 idea)')
 m('c12_accessor_order', 'C12', MO, "        results = list(valid_results.values())\n        return cast(T_EventResultType | None, results[0].result) if results else None", "        results = list(valid_results.values())\n        return cast(T_EventResultType | None, results[-1].result) if results else None", 'event_result returns the LAST result')
 m('c12_flat_dict_conflict', 'C12', MO, "            if raise_if_conflicts and overlapping_keys:", "            if raise_if_conflicts and len(overlapping_keys) > 1:", 'single-key conflicts not reported')
 # ---- C13
